@@ -12,6 +12,9 @@ import Nq.Lemmas.UsersSpawn
 import Nq.Lemmas.UsersLookup
 import Nq.Lemmas.UsersCdb
 import Nq.Lemmas.UsersGetpw
+import Nq.Lemmas.UsersNewu
+import Nq.Lemmas.UsersCdbBytes
+import Nq.Lemmas.UsersCdbRobust
 
 namespace Nq.Props.C11
 open Nq Nq.Users Nq.Spec.Users Nq.Gen.Lspawn Nq.Lemmas.Users
@@ -191,36 +194,174 @@ theorem C11_newu_table_ok (assign : Bytes) (tbl : List Asg) (h : newuParse assig
 theorem C11_wildchars_record (tbl : List Asg) : lkTbl tbl [] = .found (wildOf tbl []) :=
   lkTbl_empty tbl
 
-/-! ## the compiled database
+/-! ## the source table: qmail-newu's line compiler -/
 
-  Full statement (design): `cdbGet (cdbMake es) k` = data of the first pair of `es` with key `k`, `notFound` if
-  absent, for total size < 2^32.  Proved here for the STRUCTURED tables — hashing, the 256 buckets, `2*count` slots,
-  linear probing with wrap-around in insertion order, first match in probe order — for every list (duplicates,
-  collisions, any size).  Not proved: that parsing the little-endian byte serialisation (`cdbSeek` on `cdbMake es`)
-  equals the structured lookup; that step is covered by the correspondence run (the real qmail-newu's bytes =
-  `cdbMake`'s byte for byte, real cdb_seek = `cdbSeek` = `findStruct` on every looked-up key). -/
-theorem C11_cdb_roundtrip_partial (es : List (Bytes × Bytes)) (k : Bytes) : findStruct es k = assocFind es k :=
+/-- qmail-newu's parser (getln loop, dot line, NUL check, `byte_chr` for the first colon, the six-colon data loop,
+    `case_lowerb`) = the declarative reading of users/assign written from qmail-users(5) (LF-separated lines up to the
+    first line starting with a dot, which must exist; each line: no NUL, eight or more colon-separated fields, the first
+    not empty; wildcard iff it starts with `+`; name = rest of the first field lower-cased; data = fields 2–7 joined by
+    NUL) — for EVERY file: same table, and "bad format" on exactly the same files. -/
+theorem C11_newu_parse (assign : Bytes) : newuParse assign = specParse assign :=
+  newuParse_eq_specParse assign
+
+/-- line level: one line of users/assign -/
+theorem C11_newu_line (line : Bytes) : newuLine line = specLine line :=
+  newuLine_eq_specLine line
+
+/-! ## the compiled database, byte level -/
+
+/-- the structured tables (hashing, 256 buckets, `2*count` slots, linear probing with wrap-around in insertion order,
+    first match in probe order) return the first pair, for every list (duplicates, collisions, any size) -/
+theorem C11_cdb_struct (es : List (Bytes × Bytes)) (k : Bytes) : findStruct es k = assocFind es k :=
   findStruct_eq_assocFind es k
 
-/-- table lookup end to end on the structured database compiled from `tbl`: what nughde_get computes is what the
-    table says -/
-theorem C11_lookup_compiled (tbl : List Asg) (hT : ∀ a ∈ tbl, NUL ∉ a.name) (loc : Bytes) (hl : NUL ∉ loc) :
-    let lk : Bytes → Lk := fun k => match findStruct (pairsOf tbl) k with
+/-- **The constant database round trip, on bytes.** For every list of (key, data) pairs whose compiled file is smaller
+    than 4 GiB (the format's limit: every pointer is a 32-bit word) and every key `k` (present or not, any length):
+    running the reader — `cdb_hash`, the header pointer `(pos, len)` of table `h & 255` read as two little-endian words,
+    the slot walk from `(h >> 8) % len` with wrap-around, for each slot with an equal hash the record header
+    `(klen, dlen)`, the key comparison in 32-byte chunks, then `cdb_bread` of `dlen` bytes — on the bytes the writer
+    produces (records from offset 2048, 256 tables of `(hash, pos)` slots, the 2048-byte header) returns the data of the
+    FIRST pair with key `k`, and "absent" iff there is none; never a read error. -/
+theorem C11_cdb_roundtrip (es : List (Bytes × Bytes)) (k : Bytes) (hsz : (cdbMake es).length < 4294967296) :
+    cdbGet (cdbMake es) k =
+      match assocFind es k with
       | some d => .found d
-      | none => .notFound
-    (match lk [] with
-     | .found w => nughdeLoop lk w loc
-     | _ => NgRes.exit QLX_CDB) =
+      | none => .notFound := by
+  rw [cdbGet_cdbMake es k hsz, findStruct_eq_assocFind]
+  cases assocFind es k <;> rfl
+
+/-- the same for `cdb_seek` alone: it stops with the file position on the data of the first pair with that key and
+    reports its length -/
+theorem C11_cdb_seek_roundtrip (es : List (Bytes × Bytes)) (k : Bytes) (hsz : (cdbMake es).length < 4294967296) :
+    match cdbSeek (cdbMake es) k with
+    | .found dpos dlen => assocFind es k = some (((cdbMake es).drop dpos).take dlen) ∧
+                          (((cdbMake es).drop dpos).take dlen).length = dlen
+    | .notFound => assocFind es k = none
+    | .err => False := by
+  have h := C11_cdb_roundtrip es k hsz
+  unfold cdbGet at h
+  cases hs : cdbSeek (cdbMake es) k with
+  | err =>
+    rw [hs] at h
+    cases hf : assocFind es k <;> rw [hf] at h <;> cases h
+  | notFound =>
+    rw [hs] at h
+    cases hf : assocFind es k with
+    | none => rfl
+    | some d => rw [hf] at h; cases h
+  | found dpos dlen =>
+    rw [hs] at h
+    dsimp only at h ⊢
+    by_cases hl : (((cdbMake es).drop dpos).take dlen).length = dlen
+    · rw [if_pos hl] at h
+      cases hf : assocFind es k with
+      | none => rw [hf] at h; cases h
+      | some d =>
+        rw [hf] at h
+        simp only [Lk.found.injEq] at h
+        exact ⟨by rw [h], hl⟩
+    · rw [if_neg hl] at h
+      cases hf : assocFind es k <;> rw [hf] at h <;> cases h
+
+/-- table lookup end to end on the BYTES of the database compiled from `tbl`: what nughde_get computes (wildchars
+    record, exact key, shrinking prefixes, empty prefix — each a byte-level cdb lookup) is what the table says -/
+theorem C11_lookup_compiled (tbl : List Asg) (hT : ∀ a ∈ tbl, NUL ∉ a.name) (loc : Bytes) (hl : NUL ∉ loc)
+    (hsz : (cdbMake (pairsOf tbl)).length < 4294967296) :
+    nughdeCdb (some (cdbMake (pairsOf tbl))) loc =
       match specLookup tbl loc with
       | some r => .hit r
       | none => .miss := by
-  intro lk
-  have hlk : lk = lkTbl tbl := by
+  have hlk : cdbGet (cdbMake (pairsOf tbl)) = lkTbl tbl := by
     funext k
-    show (match findStruct (pairsOf tbl) k with | some d => Lk.found d | none => Lk.notFound) = lkTbl tbl k
-    rw [findStruct_eq_assocFind]; rfl
+    rw [C11_cdb_roundtrip _ k hsz]; rfl
+  unfold nughdeCdb
+  dsimp only
   rw [hlk, lkTbl_empty]
   exact nughdeLoop_spec tbl hT loc hl
+
+/-- **users/assign → users/cdb → nughde, end to end.** If qmail-newu compiles `assign` into the file `f` (smaller than
+    4 GiB), then the independent reading of `assign` accepts it as a table `tbl`, and for every C-string address
+    nughde_get's lookups in the bytes of `f` produce exactly the record `tbl` assigns (first exact entry, else first
+    entry with the longest wildcard prefix + remainder, case-insensitive), or a miss iff `tbl` does not cover it. -/
+theorem C11_assign_to_nughde (assign f : Bytes) (h : newuFile assign = some f) (hsz : f.length < 4294967296)
+    (loc : Bytes) (hl : NUL ∉ loc) :
+    ∃ tbl, specParse assign = some tbl ∧
+      nughdeCdb (some f) loc =
+        match specLookup tbl loc with
+        | some r => .hit r
+        | none => .miss := by
+  unfold newuFile at h
+  cases hp : newuParse assign with
+  | none => rw [hp] at h; cases h
+  | some tbl =>
+    rw [hp] at h
+    simp only [Option.map_some, Option.some.injEq] at h
+    subst h
+    exact ⟨tbl, by rw [← C11_newu_parse, hp],
+      C11_lookup_compiled tbl (newuParse_names assign tbl hp) loc hl hsz⟩
+
+/-- … and a file qmail-newu refuses ("bad format", exit 111, no cdb installed) is exactly one the declarative reading
+    refuses -/
+theorem C11_newu_refuses (assign : Bytes) : newuFile assign = none ↔ specParse assign = none := by
+  unfold newuFile
+  rw [C11_newu_parse]
+  cases specParse assign <;> simp
+
+/-! ## corrupted and truncated databases
+
+  Bounds (cdb_seek reports a record only after reading its header and key from inside the file; the data is a slice of
+  the file or the read fails) are `C20_cdb_seek_in_file` and `C20_cdb_get_slice` in Nq/Props/C20.lean, about the same
+  model functions.  Here: what a hit MEANS on an arbitrary file, and that truncation can only turn answers into errors. -/
+
+/-- On ANY file (corrupted, truncated, hostile): if the lookup of `k` returns data `d`, then the file really contains
+    a slot holding `(cdb_hash k, p)`, at `p` a record header `(|k|, |d|)`, and at `p + 8` the bytes `k ++ d`, all
+    inside the file — a hit is never made of garbage positions or of another key's record. -/
+theorem C11_cdb_hit_sound (f k d : Bytes) (h : cdbGet f k = .found d) :
+    ∃ o p, read8 f o = some ((hashKey k).toNat, p) ∧ read8 f p = some (k.length, d.length) ∧
+      (f.drop (p + 8)).take (k.length + d.length) = k ++ d ∧ p + 8 + k.length + d.length ≤ f.length := by
+  obtain ⟨o, p, h1, h2, h3⟩ := cdbGet_sound f k d h
+  refine ⟨o, p, h1, h2, h3, ?_⟩
+  have hlen := congrArg List.length h3
+  have hle := read8_le f p _ h2
+  simp only [List.length_take, List.length_drop, List.length_append] at hlen
+  omega
+
+/-- Reads are stable under extension: whatever the reader answers WITHOUT a read error on a file it answers on every
+    file that extends it.  (The reader never looks at the file size.) -/
+theorem C11_cdb_extension (f y k : Bytes) (hne : cdbGet f k ≠ .err) : cdbGet (f ++ y) k = cdbGet f k :=
+  cdbGet_mono f y k hne
+
+/-- A TRUNCATED compiled database (any prefix of the file, e.g. a crash while copying): every lookup either reports a
+    read error or gives exactly the answer of the source list — never another record, never a false "absent". -/
+theorem C11_cdb_truncated (es : List (Bytes × Bytes)) (f' y k : Bytes) (hf : f' ++ y = cdbMake es)
+    (hsz : (cdbMake es).length < 4294967296) :
+    cdbGet f' k = .err ∨
+    cdbGet f' k = match assocFind es k with
+      | some d => .found d
+      | none => .notFound := by
+  rcases cdbGet_prefix f' y k with h | h
+  · exact Or.inl h
+  · right; rw [h, hf]; exact C11_cdb_roundtrip es k hsz
+
+/-- … hence nughde_get on a truncated users/cdb compiled from `tbl` yields exactly the record the table assigns (or
+    the miss that sends it to qmail-getpw, iff the table does not cover the address), or exits QLX_CDB — which
+    `C11_defer` shows is reported `Z`: the delivery is deferred, never misdirected. -/
+theorem C11_truncated_defers (tbl : List Asg) (hT : ∀ a ∈ tbl, NUL ∉ a.name) (loc : Bytes) (hl : NUL ∉ loc)
+    (f' y : Bytes) (hf : f' ++ y = cdbMake (pairsOf tbl)) (hsz : (cdbMake (pairsOf tbl)).length < 4294967296) :
+    nughdeCdb (some f') loc = .exit QLX_CDB ∨
+    nughdeCdb (some f') loc = match specLookup tbl loc with
+      | some r => .hit r
+      | none => .miss := by
+  rcases nughdeCdb_prefix f' y loc with h | h
+  · exact Or.inl h
+  · right; rw [h, hf]; exact C11_lookup_compiled tbl hT loc hl hsz
+
+/-- On ANY file whatsoever nughde_get's cdb part ends in a record, a miss, or exit QLX_CDB (reported `Z`) -/
+theorem C11_any_cdb_exit (f : Option Bytes) (loc : Bytes) (c : Nat) (h : nughdeCdb f loc = .exit c) :
+    c = QLX_CDB ∧ reportByte c = 90 := by
+  have := nughdeCdb_exit f loc c h
+  subst this
+  exact ⟨rfl, by decide⟩
 
 /-! ## which user: the password-file rules -/
 
@@ -269,6 +410,30 @@ example : specLookup exTbl [98, 105, 108, 108] = some [65, 98, 105, 108, 108, 0]
 example : nughdeLoop (lkTbl exTbl) (wildOf exTbl []) [74, 111, 101, 45, 68] = .hit [66, 68, 0] := by decide
 -- duplicates: the first pair wins, through hashing and probing
 example : findStruct [([33, 97, 0], [1]), ([33, 98, 0], [2]), ([33, 97, 0], [3])] [33, 97, 0] = some [1] := by decide
+
+-- the same through the BYTES of the compiled file (2132 bytes, far below the 4 GiB hypothesis)
+example : (cdbMake [([33, 97, 0], [1]), ([33, 98, 0], [2]), ([33, 97, 0], [3])]).length < 4294967296 := by decide +kernel
+example : cdbGet (cdbMake [([33, 97, 0], [1]), ([33, 98, 0], [2]), ([33, 97, 0], [3])]) [33, 97, 0] = .found [1] := by
+  decide +kernel
+example : cdbGet (cdbMake [([33, 97, 0], [1]), ([33, 98, 0], [2]), ([33, 97, 0], [3])]) [33, 99, 0] = .notFound := by
+  decide +kernel
+-- truncated after the header: the lookup reports a read error (hypothesis of `C11_cdb_truncated`, first alternative)
+example : cdbGet ((cdbMake [([33, 97, 0], [1]), ([33, 98, 0], [2])]).take 2060) [33, 97, 0] = .err := by decide +kernel
+
+/-- `+a:w:1:2:/h:-:p:` / `=B:u:3:4:/:::` / `.` -/
+def exAssign : Bytes :=
+  [43, 97, 58, 119, 58, 49, 58, 50, 58, 47, 104, 58, 45, 58, 112, 58, 10,
+   61, 66, 58, 117, 58, 51, 58, 52, 58, 47, 58, 58, 58, 10, 46, 10]
+
+example : specParse exAssign = some [⟨true, [97], [119, 0, 49, 0, 50, 0, 47, 104, 0, 45, 0, 112]⟩,
+                                     ⟨false, [98], [117, 0, 51, 0, 52, 0, 47, 0, 0]⟩] := by decide
+-- a line with seven fields only, and a file without a dot line, are refused by both readings
+example : specParse [61, 97, 58, 117, 58, 49, 58, 50, 58, 47, 58, 58, 10, 46, 10] = none := by decide
+example : newuParse [61, 97, 58, 117, 58, 49, 58, 50, 58, 47, 58, 58, 58, 10] = none := by decide
+-- the compiled file of `exAssign` exists, is small, and "Ax" is delivered by the wildcard line (ext "x" after pre "p")
+example : ∃ f, newuFile exAssign = some f ∧ f.length < 4294967296 ∧
+    nughdeCdb (some f) [65, 120] = .hit [119, 0, 49, 0, 50, 0, 47, 104, 0, 45, 0, 112, 120, 0] :=
+  ⟨_, rfl, by decide +kernel, by decide +kernel⟩
 
 /-- no users/cdb; passwd: alias (7790) and joe (uid 1001, owns /h/joe) -/
 def exEnv : Env :=
